@@ -245,6 +245,26 @@ class Discharger:
             return None
         proj = p["p"]
         d = self.defs.single(p["l"])
+        if d is not None and d[0] == "call" and not proj:
+            # `array.len()` of a fixed-size array
+            n = strip_generics(callee_name(d[3]) or "")
+            if n.endswith("::len") and d[3]["args"]:
+                rp = self.defs.resolve_place(d[3]["args"][0])
+                if rp is not None and not rp["p"]:
+                    m = re.match(r"^\[.*; (\d+)\]$", self.fn.local_ty(rp["l"]))
+                    if m:
+                        return int(m.group(1))
+                # through an unsizing cast of `&array`
+                q = op_place(d[3]["args"][0])
+                dd = self.defs.single(q["l"]) if q is not None and not q["p"] else None
+                if dd and dd[0] == "st" and dd[3]["k"] == "=" and dd[3]["rv"]["k"] == "cast" and dd[3]["rv"]["ck"].startswith("Unsize"):
+                    rp = self.defs.resolve_place(dd[3]["rv"]["op"])
+                    if rp is not None:
+                        ty = self.fn.local_ty(rp["l"]) if not rp["p"] else ""
+                        m = re.match(r"^&?(mut )?\[.*; (\d+)\]$", ty)
+                        if m:
+                            return int(m.group(2))
+            return None
         if d is None or d[0] != "st" or d[3]["k"] != "=":
             return None
         rv = d[3]["rv"]
@@ -608,8 +628,8 @@ class Discharger:
                 true_t = t["else"] if 0 in m else m.get(1)
                 false_t = m.get(0, t["else"])
                 out.append((bi, true_t, false_t, cmp_st["rv"]["op"],
-                            pa["l"] if pa is not None and not pa["p"] else None, const_operand(a),
-                            pc["l"] if pc is not None and not pc["p"] else None, const_operand(c)))
+                            pa["l"] if pa is not None and not pa["p"] else None, self.eval_const(a),
+                            pc["l"] if pc is not None and not pc["p"] else None, self.eval_const(c)))
             elif cmp_st is None or cmp_st["rv"]["k"] == "use":
                 # switch directly on an integer value: each target knows value == v
                 src = self.src_local(t["op"])
